@@ -106,6 +106,22 @@ def check_sources(ctx):
                         rng_sites += 1
                         ctx.ob("R14-SRC", fn in NP_RANDOM_OK, file, q, norm_src(n),
                                "draw from numpy's global generator" if fn in NP_RANDOM_OK else "unknown np.random function '%s'" % fn, n.lineno)
+                        # isolation on RNG-free partitions: the global generator is shared by all instances, so an algorithm that
+                        # draws from it is influenced by every other instance that does.  Instances confirmed on the reference
+                        # tree: only VROOM (its published rule is randomised); every other algorithm is a deterministic function
+                        # of its arguments, the rewards and the partition's own draws.
+                        if file.startswith("PyXAB/algos/") and q.split(".")[0] not in ("VROOM", "VROOM_node"):
+                            ctx.violation("R14-ISO", file, q, norm_src(n),
+                                          "%s draws from numpy's global generator: two instances interleaved on an RNG-free partition consume each "
+                                          "other's draws, so each no longer produces the sequence it produces alone (only VROOM is randomised)"
+                                          % q.split(".")[0], n.lineno)
+                # process-wide numpy / interpreter settings: changing them changes what OTHER instances compute (inf/nan handling,
+                # warnings turned into errors, print options), whatever object they were changed from
+                if name in ("np.seterr", "numpy.seterr", "np.seterrcall", "np.set_printoptions", "np.setbufsize", "warnings.simplefilter",
+                            "warnings.filterwarnings", "warnings.resetwarnings", "sys.setrecursionlimit", "np.random.set_state",
+                            "random.seed", "random.setstate", "os.environ.update", "os.putenv", "locale.setlocale"):
+                    ctx.violation("R14-ISO", file, where(model, tree, n, file), norm_src(n),
+                                  "%s changes a process-wide setting: every other instance in the process computes under it afterwards" % name, n.lineno)
             if isinstance(n, ast.Attribute) and n.attr in ("__dict__", "__class__", "__hash__") and isinstance(n.ctx, ast.Load):
                 if n.attr == "__dict__":
                     ctx.violation("R14-DYN", file, where(model, tree, n, file), norm_src(n), "__dict__ access defeats the field-based analysis", n.lineno)
